@@ -173,6 +173,33 @@ def _is():
     return Is[_pred]
 
 
+_LAMBDA_MOD = []
+
+
+def _lambda_validators():
+    """Is[lambda ...] validators whose lambdas live in a source file on disk (beartype reads the source to describe them):
+    an ordinary one, two on one line, one too deeply nested for ast to parse. The module is written to a scratch directory of
+    this process and imported once."""
+    if not _LAMBDA_MOD:
+        import importlib.util
+        import os
+        import tempfile
+        d = tempfile.mkdtemp(prefix='verif_hintjunk_')
+        path = os.path.join(d, 'verif_hintjunk_lambdas.py')
+        deep = 'x' + ' + 1' * 700
+        with open(path, 'w') as f:
+            f.write('from beartype.vale import Is\n'
+                    'PLAIN = Is[lambda x: x is not None]\n'
+                    'TWO_A, TWO_B = Is[lambda x: True], Is[lambda x: bool(x) or True]\n'
+                    'DEEP = Is[lambda x: (%s) is not None if isinstance(x, int) else True]\n'
+                    'DEEP2 = Is[lambda x: isinstance(x, object) or (%s)]\n' % (deep, deep))
+        spec = importlib.util.spec_from_file_location('verif_hintjunk_lambdas', path)
+        mod = importlib.util.module_from_spec(spec)
+        spec.loader.exec_module(mod)
+        _LAMBDA_MOD.append(mod)
+    return _LAMBDA_MOD[0]
+
+
 def _pipe(a, b):
     return a | b
 
@@ -186,7 +213,11 @@ CTORS = {
     'pipe': (2, _pipe), 'type': (1, lambda a: type[a]), 'Type': (1, lambda a: typing.Type[a]),
     'Annotated_meta': (1, lambda a: Annotated[a, 'meta']), 'Annotated_is': (1, lambda a: Annotated[a, _is()]),
     'Annotated_mixed': (1, lambda a: Annotated[a, 'meta', _is()]), 'Annotated_unhashable': (1, lambda a: Annotated[a, []]),
-    'Annotated_dictmeta': (1, lambda a: Annotated[a, {}, _is()]), 'Literal': (1, lambda a: Literal[a]),
+    'Annotated_dictmeta': (1, lambda a: Annotated[a, {}, _is()]),
+    'Annotated_lambda': (1, lambda a: Annotated[a, _lambda_validators().PLAIN]),
+    'Annotated_lambda_two': (1, lambda a: Annotated[a, _lambda_validators().TWO_A, _lambda_validators().TWO_B]),
+    'Annotated_lambda_deep': (1, lambda a: Annotated[a, _lambda_validators().DEEP]),
+    'Annotated_lambda_deep2': (1, lambda a: Annotated[a, ~_lambda_validators().DEEP2 | _lambda_validators().PLAIN]), 'Literal': (1, lambda a: Literal[a]),
     'Callable1': (2, lambda a, b: Callable[[a], b]), 'CallableE': (1, lambda a: Callable[..., a]),
     'abcCallable1': (2, lambda a, b: cabc.Callable[[a], b]), 'GenericK': (1, lambda a: GenericK[a]), 'ListSub': (1, lambda a: ListSub[a]),
     'deque': (1, lambda a: collections.deque[a]), 'Counter': (1, lambda a: collections.Counter[a]),
